@@ -25,6 +25,7 @@ import (
 	"path/filepath"
 	"reflect"
 	"runtime"
+	"sort"
 	"strconv"
 	"strings"
 	"sync"
@@ -1708,7 +1709,14 @@ func (t *Transaction) AssertedDatasets() []string {
 func (s *Store) ExecuteTransaction(transaction *Transaction) error {
 	datasets := make(map[string]*Dataset)
 
+	// take the write locks in one global order, otherwise two transactions naming the same
+	// datasets can each hold a lock the other one waits for
+	names := make([]string, 0, len(transaction.DatasetEntities))
 	for k := range transaction.DatasetEntities {
+		names = append(names, k)
+	}
+	sort.Strings(names)
+	for _, k := range names {
 		dataset, ok := s.datasets.Load(k)
 		if !ok {
 			return errors.New("no dataset " + k)
